@@ -43,7 +43,7 @@ def run(ctx):
     stats = json.loads(p.stdout.strip().splitlines()[-1])
     if stats["faults"] > 3:
         raise common.Inconclusive("too many harness faults in the pipelining run: %s" % stats)
-    res2, distinct, classes, samples2 = c08.judge(ctx, obs2, stats)
+    res2, distinct, classes, samples2 = c08.judge(ctx, obs2, stats, prop="C07")
     ctx.cov.update(states=res["states"] + res2["states"], transitions=res["transitions"] + res2["transitions"],
                    traces_validated_against_impl=res["lines"] + res2["lines"],
                    evaluations=res["lines"] + res2["lines"], distinct_nontrivial=len(lines) + len(distinct),
